@@ -81,6 +81,8 @@ def objPairs (j : Json) : List (String × Json) :=
 def step (cur : Option PDS) (j : Json) : Option PDS × Json :=
   -- real-world corpus files: the model only says that the front-end returns
   if strD j "op" == "gocorpus" || strD j "op" == "pycorpus" then (cur, Json.mkObj [("corpus", true)]) else
+  -- files with shapes outside the model (anonymous interface types in signatures): the model only says that the front-end returns
+  if boolD j "unmodelled" then (cur, Json.mkObj [("unmodelled", true)]) else
   let files := ((objPairs (obj j "truth")).mergeSort fun a b => decide (a.1 ≤ b.1))
   if strD j "op" == "go" then
     (cur, Json.mkObj [("containers", mkArr (files.map fun (p, t) => goFile p t))])
